@@ -1,3 +1,4 @@
+import BalmProofs.StrictSpec
 import Balm
 import BalmProofs.AttrTest
 import BalmProofs.Bfs
